@@ -6,7 +6,17 @@ import RV.Lemmas.DepSync
 fenceposts, any number of old ReplicaSets of any sizes, any status numbers); `post s` is the
 state after one `syncDeployment` of the model `RV.DepSync` (tied to the Go code by suite
 "depsync").  `inv` is the inductive invariant `I`.  The clause predicates are the `Bool`
-functions of `RV.Oracle.C17`, the same ones the driver evaluates on the implementation's output.
+functions of `RV.Oracle.C17`, the same ones the driver evaluates on the implementation's output;
+every clause is vacuous outside `inScope` (deleting / paused / scaling event: the size *is* being changed).
+
+| clause | theorem(s) |
+|---|---|
+| `I` holds initially (hypothesis), preserved by sync / environment / every step | `inv_sync`, `inv_env`, `inv_step`, `inv_reach` |
+| (i) new RS never raised above `max(new, limit)` | `c17_i_partial` (guard `lowerBound`), `c17_i_lowerBound`, `c17_i_witness`; no old pods: `c17_i0` |
+| (ii) old total never below the reserve; raised when below | `c17_ii`, `c17_ii_up` |
+| (iii) raising the new RS keeps total ≤ replicas + maxSurge | `c17_iii_partial` (guard `lowerBound`), `c17_iii_lowerBound`, `c17_iii_witness` |
+| (iv) availability | `c17_iv_budget`, `c17_iv_partial` (guard `stale`), `c17_iv_witness`, `c17_iv_witness_new` |
+| (v) convergence | `c17_v_sync`, `c17_v_env`, `c17_v_progress`, `c17_v_final`, `c17_v_rounds`, `c17_v_fair` |
 -/
 namespace RV.Props.C17
 open RV.Arith RV.DepSync RV.Oracle.C17
@@ -78,14 +88,6 @@ theorem c17_iv_budget (s : State) (h : inv s = true) : clauseIVbudget s (post s)
       | none => have := h2 hnew; simp only [optAvail]; omega
       | some r => have := h1 r hnew; simp only [optAvail]; omega
 
-
-/-- `stale` unfolded -/
-theorem not_stale (s : State) (h : stale s = false) :
-    (∀ r ∈ s.olds, r.avail ≤ r.spec) ∧ (∀ r, s.new = some r → r.avail ≤ r.spec) := by
-  simp only [stale, List.any_eq_false, List.mem_append, decide_eq_true_eq, Int.not_lt] at h
-  refine ⟨fun r hr => ?_, fun r hr => ?_⟩
-  · have := h r (Or.inl hr); omega
-  · have := h r (Or.inr (by simp [hr])); omega
 
 /- **C17 (iv), full strength** — `∀ s, inv s → clauseIV s (post s)` — is FALSE for the unchanged code:
    see `c17_iv_witness` (known finding C17-F2, guard `stale`). -/
@@ -281,6 +283,37 @@ theorem c17_iii_lowerBound (s : State) (h : inv s = true) (hsc : inScope s = tru
       omega
   · rw [hn']; simp only [optSpec]; omega
 
+
+/-! ## The same clauses spelled out as inequalities (corollaries, for reading) -/
+
+/-- (i) spelled out -/
+theorem c17_i_readable (s : State) (h : inv s = true) (hsc : inScope s = true)
+    (hg : lowerBoundRegion s = false) (hold : 0 < oldTotal s) :
+    newSpec (post s) ≤ max (newSpec s) (limit s) := by
+  have := c17_i_partial s h hg
+  simpa [clauseI, hsc, hold] using this
+
+/-- (ii) spelled out -/
+theorem c17_ii_readable (s : State) (h : inv s = true) (hsc : inScope s = true) :
+    min (oldTotal s) (s.replicas - max (limit s) (newSpec (post s))) ≤ oldTotal (post s) := by
+  have := c17_ii s h
+  simp only [clauseII, hsc, reserve, Bool.not_true, Bool.false_or] at this
+  exact of_decide_eq_true this
+
+/-- (iii) spelled out -/
+theorem c17_iii_readable (s : State) (h : inv s = true) (hsc : inScope s = true)
+    (hg : lowerBoundRegion s = false) (hup : newSpec s < newSpec (post s)) :
+    oldTotal s + newSpec (post s) ≤ s.replicas + maxSurgeV s := by
+  have := c17_iii_partial s h hg
+  simpa [clauseIII, hsc, hup] using this
+
+/-- (iv) spelled out: pods that are available and kept by the specs never drop below
+    `min(what was kept, replicas − maxUnavailable)` -/
+theorem c17_iv_readable (s : State) (h : inv s = true) (hsc : inScope s = true) (hg : stale s = false) :
+    min (floorAvail s) (s.replicas - maxUnavailV s) ≤ floorAvail (post s) := by
+  have := c17_iv_partial s h hg
+  simp only [clauseIV, hsc, minAvailable, Bool.not_true, Bool.false_or] at this
+  exact of_decide_eq_true this
 
 /-! ## The invariant `I` -/
 
